@@ -750,6 +750,30 @@ def clause10_header_values(ctx, P, cg):
            (wrong[0][0].srcname, wrong[0][2], wrong[0][1].loc) if wrong else "no literal comparison found in the header value callback (the version literal \"13\" is expected)")
 
 
+def clause8b_fragment_state(ctx, P):
+    """the state of a fragmented message is two members that change together: is_fragmented (a message is open) and frag_opcode (its
+    kind).  Every path of ws_handle_frame() that writes one writes the other - opening sets both, the last fragment clears both; a
+    stale frag_opcode makes a stray final continuation frame look like the end of a message of that kind instead of a protocol error"""
+    hf = P.fn("websocket.c:ws_handle_frame")
+    bad = None
+    n = 0
+    for v in Q.path_views(ctx, P, hf):
+        names = set()
+        for _, i in v.insts():
+            if i.op == "store":
+                nm = _bf_store_name(P, hf, i)
+                if nm:
+                    names.add(nm)
+        if "is_fragmented" in names or "frag_opcode" in names:
+            n += 1
+            if not {"is_fragmented", "frag_opcode"} <= names:
+                bad = (v, sorted(names & {"is_fragmented", "frag_opcode"}))
+    ctx.ob("C12.2 R-PAIR", hf, "fragment-state-changes-together", bad is None and n >= 2,
+           "ws_handle_frame() writes %s without the other member of the fragment state on this path: after the message has ended the "
+           "stale member decides how a stray continuation frame is treated (delivered as a last fragment instead of closed with 1002)" %
+           (bad[1] if bad else "?"), witness=bad[0].witness() if bad else None)
+
+
 def clause8_frame_flags(ctx, P, cg):
     """the flags of a frame header (fin, rsv, opcode, mask) are rewritten for EVERY frame: a flag that is only ever set
     keeps the value of an earlier frame (e.g. 'masked'), and the checks on it stop working from the second frame on"""
@@ -798,6 +822,9 @@ def run(ctx):
         clause7b_list_tokens(ctx, P)
         clause8_status_codes(ctx, P)
         clause8_frame_flags(ctx, P, cg)
+        clause8b_fragment_state(ctx, P)
+        from .c13 import clause11_target_is_the_path      # 'a valid upgrade for the configured target': the target in any legal form
+        clause11_target_is_the_path(ctx, P)
         clause9_misc(ctx, P, cg)
         clause10_header_values(ctx, P, cg)
         from .c06 import clause11b_bitfield_copies
